@@ -27,7 +27,8 @@ RULE = ("seeded configurations (pipelines with nested parameter maps, sweeps wit
         "in-process worlds {clock, TZ, cwd, uuid stream, prior history of 0-6 operations on it and on other configs, cosmetic "
         "YAML rewrite: key order at every depth, flow/block style, quoting, float spellings, anchors, +/* operand order} x one "
         "fresh interpreter under a different PYTHONHASHSEED x three paths. distinct_nontrivial = distinct (config digest, world "
-        "digest) pairs in which all three paths produced identities.")
+        "digest) pairs in which all three paths produced identities."
+        " Further seeded dimensions: every bool spelling, sweeps without expressions, integral value lists with type-variant twins in the history, library loader on a just-rewritten path, trace detail sampled from all flag subsets, the traced Pipeline object run twice, pristine YAML loader as the judge of meaning.")
 REAL_COMPONENTS = ["graph_builder (canonical spec, node uuids, pipeline id)", "metadata.semantic_id", "inspection builder / reporter",
                    "cli inspect / cli run", "orchestrator (pipeline_start meta)", "node_preprocess / sweep factory", "YAML loader"]
 STUB_COMPONENTS = ["leaf processors", "RecordingExecutor", "SimClock/SimUUID", "PyYAML dumper variants (harness-side rewriter)"]
